@@ -132,6 +132,8 @@ class Container(typing.Generic[Symbol]):
                     expression: Expression to be extracted and registered.
                 """
                 self.select(expression)
+                if not isinstance(expression, dsl.Predicate):
+                    return  # a boolean feature that is not a predicate (column, literal, cast) has no factors
                 for table, factor in expression.factors.items():
                     self[table].factors.add(factor)
 
